@@ -27,7 +27,7 @@ RULE = (
     "GreensFunctionCache on one persistent directory, reopen (new cache object), truncate(entry, fraction), zero_length(entry), "
     "drop a junk file, clear(). Requests = a base footprint request and every single-argument variant of the solver signature "
     "(source values, source shape, z, each of the five profiles, domain, levels scalar/list, modes, meas_pt, background, footprint "
-    "flag, analytic flag, halo None / explicit-equal-to-default / other / 0, precision, last-digit changes of meas_pt and Kz) plus generated ordered level selections of 1..4 levels. Model: memo of uncached results; map entry "
+    "flag, analytic flag, halo None / explicit-equal-to-default / other / 0, precision, last-digit changes of meas_pt and Kz, and 1203-node columns whose level list / z differ only in the middle) plus generated ordered level selections of 1..4 levels. Model: memo of uncached results; map entry "
     "file -> (request, intact). Invariants after every step: a cached solve returns exactly the uncached result (array_equal, "
     "dtypes, grids); a request that was solved with the cache attached (and whose entry was not damaged or cleared since) is a hit with no put - also when the solve had to repair a damaged entry; no solve raises, whatever files are damaged. "
     "Enumerated part: for each request kind a stored entry is truncated at sampled (quick) or every (thorough) byte offset and "
@@ -95,6 +95,21 @@ def _variants():
     p = list(b["profiles"])
     p[4] = p[4] * (1 + 1e-12)
     V.append(("Kz-tiny", {"profiles": tuple(p)}))
+    # long arguments that differ only in the middle (a key built from a printed / abbreviated form of an array
+    # cannot tell them apart): a 1202-layer column with the full column requested, the same with two middle levels
+    # swapped, and the column with one middle node moved (scalar level)
+    zt = np.linspace(0.05, 6.0, 1203)
+    Kt = 0.4 * 0.35 * zt
+    tall = {"z": zt, "profiles": (1.2 * np.log(zt / 0.04) * 0.8, 1.2 * np.log(zt / 0.04) * 0.45, Kt, 0.8 * Kt, 1.1 * Kt)}
+    full = list(range(1203))
+    swapped = list(full)
+    swapped[600], swapped[601] = swapped[601], swapped[600]
+    zt2 = zt.copy()
+    zt2[600] += 1e-3
+    V.append(("tall-all-levels", dict(tall, levels=full)))
+    V.append(("tall-middle-levels-swapped", dict(tall, levels=swapped)))
+    V.append(("tall-scalar-level", dict(tall, levels=700)))
+    V.append(("tall-middle-node-moved", dict(tall, z=zt2, levels=700)))
     out = []
     for name, ch in V:
         r = dict(b)
@@ -324,6 +339,11 @@ def machine(tier, stats, last_fail):
 
         @rule(i=st.sampled_from([0, 0, 10, 11, 15, 17, 18, NAMES.index("modes-one-above-padded"), NAMES.index("modes-per-axis-clamp-of-it")]))
         def solve_common(self, i):
+            self._do(["solve", i])
+
+        @rule(i=st.sampled_from([NAMES.index(n) for n in ("tall-all-levels", "tall-middle-levels-swapped", "tall-scalar-level",
+                                                            "tall-middle-node-moved")]))
+        def solve_tall(self, i):
             self._do(["solve", i])
 
         @rule(lv=st.lists(st.integers(0, 5), min_size=1, max_size=4, unique=True))
